@@ -241,6 +241,27 @@ def run_case(case):
             sim.reset_integrator()
             sim.gravity = 'basic'      # the reset selects IAS15 but leaves the WHFast/MERCURIUS gravity routine selected; REBOUND warns, the user sets it back
             sim.dt = dt0
+        elif x < 0.745 and N >= 1:
+            # a single member of a single particle is edited between two snapshots with no step in between (naming a particle,
+            # changing a mass or a radius): the delta encoder has to notice a change in any persisted member, not only coordinates
+            i = r.randrange(N)
+            which = r.choice(['hash', 'hash', 'm', 'r', 'x', 'vz', 'last_collision'])
+            op = dict(op='edit_particle', i=i, which=which)
+            p = sim.particles[i]
+            if which == 'hash':
+                p.hash = r.choice(['planet%d' % r.randrange(1000), r.getrandbits(32) | 1])
+            elif which == 'm':
+                p.m = p.m * 1.0000001 + (1e-12 if i else 0.0)
+            elif which == 'r':
+                p.r = p.r + 1e-6
+            elif which == 'last_collision':
+                p.last_collision = sim.t + 1e-3
+            else:
+                setattr(p, which, getattr(p, which) + 1e-9)
+            counters['particle_member_edits'] = counters.get('particle_member_edits', 0) + 1
+            if r.random() < 0.6:
+                manual_snapshot()
+                counters['snapshots_right_after_member_edit'] = counters.get('snapshots_right_after_member_edit', 0) + 1
         elif x < 0.78:
             which = r.choice(['dt', 'softening', 'G', 'N_active', 'testparticle_type', 'exit_max_distance'])
             val = {'dt': dt0 * r.choice([0.5, 1.0, 1.3]), 'softening': r.choice([0.0, 1e-4]), 'G': sim.G, 'N_active': r.choice([-1, max(1, N - 1)]) if N > 1 else -1,
